@@ -65,6 +65,11 @@ type state struct {
 	flags map[string]bool
 	// fnCalls counts the standard-library calls that succeeded.
 	fnCalls int
+	// pending is a failure found inside a step (reported by the next invariant).
+	pending *facet.Failure
+	// convs holds conversions looked up once for the dynamic source type and
+	// applied to every later value converted to the same target.
+	convs map[string]convert.Conversion
 }
 
 func fingerprint(v cty.Value) string { return cty.VerifFingerprint(v) }
@@ -101,6 +106,9 @@ func eqStrings(a, b []string) bool {
 
 // invariant checks every live value and every live set against its record.
 func (st *state) invariant(step int) *facet.Failure {
+	if st.pending != nil {
+		return st.pending
+	}
 	for i, l := range st.lives {
 		if got := fingerprint(l.v); got != l.fp {
 			return facet.Failf("value-changed", "after step %d (%s): live value #%d (created by %s) changed:\n  was %s\n  now %s\nhistory: %s",
@@ -314,10 +322,59 @@ func (st *state) step(s Step) {
 	case "conv":
 		a, b := st.pick(s.A), st.pick(s.B)
 		st.log = append(st.log, fmt.Sprintf("conv #%d to type of #%d", mod(s.A, len(st.lives)), mod(s.B, len(st.lives))))
+		target := b.Type()
+		if s.N%3 == 0 {
+			// one time in three the target keeps only the kind of #b's type and
+			// leaves the element type open
+			switch {
+			case target.IsListType():
+				target = cty.List(cty.DynamicPseudoType)
+			case target.IsSetType():
+				target = cty.Set(cty.DynamicPseudoType)
+			case target.IsMapType():
+				target = cty.Map(cty.DynamicPseudoType)
+			case target.IsTupleType() && target.Length() > 0:
+				target = cty.List(cty.DynamicPseudoType)
+			}
+		}
 		var r cty.Value
 		var err error
-		if !guarded(func() { r, err = convert.Convert(a, b.Type()) }) && err == nil {
+		convOK := !guarded(func() { r, err = convert.Convert(a, target) }) && err == nil
+		if convOK {
 			st.push(r, "convert")
+		}
+		// the same request through a conversion that was looked up once (for the
+		// dynamic source type) and has served earlier values of other types: a
+		// conversion is a pure function of the value it is given
+		if st.convs == nil {
+			st.convs = map[string]convert.Conversion{}
+		}
+		key := target.GoString()
+		cv, seen := st.convs[key]
+		if !seen {
+			guarded(func() { cv = convert.GetConversionUnsafe(cty.DynamicPseudoType, target) })
+			st.convs[key] = cv
+		}
+		if cv != nil && convOK {
+			var r2 cty.Value
+			var err2 error
+			// (compared by type, and by content where both results are wholly
+			// known: an unknown result may or may not carry an empty refinement
+			// record depending on the route, which is not a difference in value)
+			differs := func() bool {
+				if !r2.Type().Equals(r.Type()) {
+					return true
+				}
+				return r.IsWhollyKnown() && r2.IsWhollyKnown() && !r2.RawEquals(r)
+			}
+			if !guarded(func() { r2, err2 = cv(a) }) && err2 == nil && differs() {
+				st.pending = facet.Failf("conversion-impure", "a conversion to %s looked up once for the dynamic source type and reused returned %#v for %#v; a fresh Convert returns %#v\nhistory: %s", key, r2, a, r, strings.Join(st.log, " ; "))
+			}
+		}
+		// UnknownAsNull derives a value as well
+		var un cty.Value
+		if !guarded(func() { un = cty.UnknownAsNull(a) }) {
+			st.push(un, "UnknownAsNull")
 		}
 	case "refine":
 		a := st.pick(s.A)
